@@ -8,7 +8,7 @@ from typing import Dict, List, Set
 
 from ..framework import Check
 from ..defs_common import FAM, regen_or_report
-from ..defs_emit_common import (COQ_HEADER, DIFF_NAMES, F, build_corpus, closure_case, cyclic_closures, closure_files, closure_model_ok, coq_case,
+from ..defs_emit_common import (COQ_HEADER, DIFF_NAMES, F, build_corpus, closure_case, cyclic_closures, long_name_closures, substring_name_closures, closure_files, closure_model_ok, coq_case,
                                 construct_classes, diagnose, names_of_model, observation, read_m, run_emit, source_classes)
 
 THEOREMS = ["C15_total", "C15_total_closure", "C15_empty_file_ex", "C15_total_ex", "C15_total_div_ex", "C15_scoped_py_partial", "C15_scoped_c_partial",
@@ -88,6 +88,8 @@ def extra_closures(natives: List[str]) -> List[dict]:
         dict(path="notes.yaml", imports=[], items=[], text="# nothing defined here yet\n\n# message_defs:\n")],
         auto_pad=True, import_coredefs=False), coq=True))
     out += cyclic_closures()        # import cycles: legal, every file read once, all four outputs must load
+    out += substring_name_closures()    # N and N_MAX, CH and CH_PER_N, MAX and N_MAX, A / AA / XAAX in one expression, both orders
+    out += [c for c in long_name_closures(46, 50)]
     out.append(dict(tag="constant-named-like-field", cl=dict(files=[dict(path="root.yaml", imports=[], items=[
         ("const", "count", ("lit", 3)), ("struct", "S1", F(("count", "int32", None), ("b", "int32", ("ref", "count")))),
         ("struct", "RTMA_MSG_HEADER", F(("msg_type", "int32", None)))])], auto_pad=True, import_coredefs=False), coq=False))
